@@ -36,8 +36,22 @@ func init() {
 
 func staticCalleeNamed(c ssa.CallInstruction, rel, typ, name string) bool {
 	f := c.Common().StaticCallee()
-	if f == nil || f.Name() != name {
+	if f == nil {
 		return false
+	}
+	if f.Name() != name {
+		// the anchor may have been renamed: compare with the function that has its recorded shape
+		if activeProg == nil || !activeProg.InRepo(f) {
+			return false
+		}
+		if typ == "" {
+			if activeProg.Pkg(rel) == nil || activeProg.Pkg(rel).Func(name) != nil {
+				return false
+			}
+		} else if activeProg.methodByName(rel, typ, name) != nil {
+			return false
+		}
+		return activeProg.resolveRenamed(rel, typ, name) == f
 	}
 	if typ == "" {
 		return isFunc(f, modPath+"/"+rel, name)
@@ -297,7 +311,7 @@ func (p *Program) globalInitIs(g *ssa.Global, fname string, k int64) bool {
 					return false
 				}
 				f := c.Common().StaticCallee()
-				if f == nil || f.Name() != fname {
+				if f == nil || (f.Name() != fname && f != p.Func(deflRel, fname)) {
 					return false
 				}
 				v, ok := constInt(c.Common().Args[0])
